@@ -78,7 +78,8 @@ type jAbs struct {
 	Max  int32 `json:"max"`
 }
 type jEvent struct {
-	T     string `json:"t"` // "k" key, "a" abs, "m" midi-in
+	T     string `json:"t"` // "k" key, "a" abs, "m" midi-in, "o" an event of the evdev type Ty (EV_MSC, EV_REL, EV_LED ...: not interpreted by the device)
+	Ty    int    `json:"ty"`
 	Sub   string `json:"sub"`
 	Code  int    `json:"code"`
 	Val   int32  `json:"val"`
@@ -207,6 +208,9 @@ func mkEvent(e jEvent) *input.InputEvent {
 	ty := evdev.EV_KEY
 	if e.T == "a" {
 		ty = evdev.EV_ABS
+	}
+	if e.T == "o" {
+		ty = e.Ty
 	}
 	return &input.InputEvent{
 		Source: input.Handler{Name: e.Sub, DeviceInfo: input.DeviceInfo{Name: "verif"}},
